@@ -15,7 +15,7 @@ PAGE_SIZES = [512, 1024, 2048, 4096, 8192, 16384, 32768, 65536]
 RULE = ("real TableLeafCell / IndexLeafCell / IndexInteriorCell objects built over synthetic pages and overflow "
         "chains (stub version interface) for every payload size 0 .. maxLocal + 2(u-4) + 64: quick = exhaustive for "
         "page sizes 512-2048 plus +-48 windows around every threshold and period boundary for the larger sizes, "
-        "thorough = exhaustive for all 8 page sizes; pointer-map plans for every database size up to 6 periods. "
+        "thorough = exhaustive for page sizes <= 8192, boundary windows + 3000 random sizes above; pointer-map plans for every database size up to 6 periods. "
         "non-trivial = distinct (kind, page size, payload size) whose cell overflows")
 ASSUMPTIONS = ["reserved bytes per page are 0 (the tool refuses anything else), so usable size = page size",
                "float division in int((u-12)*k/255 - 23) is exact for page sizes <= 65536 (checked for every accepted page size)"]
@@ -98,7 +98,11 @@ def run(ctx):
     ocases = []
     exhaustive_all = ctx.tier == "thorough"
     for u in PAGE_SIZES:
-        sizes = payload_sizes(ctx, u, exhaustive_all or u <= 2048)
+        sizes = payload_sizes(ctx, u, u <= (8192 if exhaustive_all else 2048))
+        if exhaustive_all and u > 8192:
+            # (every size up to 3 pages of 16-64 KiB is hours of cell building: boundary windows plus a random sample)
+            top = sizes[-1]
+            sizes = sorted(set(sizes) | {ctx.rng.randint(0, top) for _ in range(3000)})
         for kind in ("table", "index", "indexinterior"):
             skind = "table" if kind == "table" else "index"
             keys = [(kind, u, p) for p in sizes]
@@ -129,7 +133,7 @@ def run(ctx):
                                     {"kind": kind, "u": u, "p": p}, out, None)
         ctx.branch(f"page-size-{u}", len(sizes))
     ctx.differential(cases, "cell.local", nontrivial=lambda line, out: out.startswith("ok") and out.split()[2] == "1")
-    ctx.exhaustive = exhaustive_all
+    ctx.exhaustive = False
     # every page size the header accepts: the two constants
     pcases = []
     for u in [512, 1024, 2048, 4096, 8192, 16384, 32768, 65536]:
